@@ -69,6 +69,38 @@ def oracle_fails(pid, rec):
 NOT_APPLICABLE = {}
 
 PROPS = {
+    "C17": {
+        "manifest_text": "Lean 4 theorems (29): an independent proleptic Gregorian calendar proved correct from first principles (civil <-> day-number round trip for all days, weekday, ordinal, %U/%W week numbers, ISO week date, offset arithmetic keeps the instant); eq/cmp of date-times are those of the instant regardless of offset; default print then parse returns the same local time, offset and instant (years -9999..9999, minute-granular offsets); the model of strftime.rs never panics for any format text, echoes unknown (incl. non-ASCII) directives verbatim, reports malformed formats as errors, prints every numeric directive as its field padded per flag/width and %L/%N as the leading digits of the 9-digit nanosecond (after the fix: commits). Tied to /repo by a differential run over boundary timestamps x directives x flags x widths, random formats, all accepted parse syntaxes, and a per-case comparison of the time crate's calendar fields with the Lean calendar.",
+        "manifest_note": "Trusted: Lean kernel + allowed axioms, theorem statements, hand-written models (validated differentially). The time crate's own formatter/parser are modelled syntax-wise and compared on every run, not verified; alphabetic and composite directives are checked differentially only.",
+        "technique": "Lean 4 proof (calendar arithmetic, directive equations) + differential correspondence incl. independent calendar cross-check",
+        "design_ref": "DESIGN.md section 7 C17",
+        "rule": "cases = boundary timestamps (1/7 Jan, 28/29 Feb, 1 Mar, 25..31 Dec of years 1, 1000, 9999, 1970..2040; every hour x every offset -12:00..+14:00 incl. :30/:45 and -00:30; sub-seconds 5 ms, 1 us, 1 ns, ...; plus years 0 and negative) x every directive x flag {none,-,_,0,^,#} x width {none,1,3,6,12}, the composite directives, %%, unknown ASCII and non-ASCII directives, E/O modifiers, colon forms, dangling % / width overflow, random concatenations over random instants; every accepted parser syntax with/without offset plus near misses; print/parse round-trips; eq/cmp pairs across offsets; date_in_tz. On every strftime case the time crate's calendar fields are compared with the independent Lean calendar. non-trivial = distinct inputs whose observation is not an empty output",
+        "explanation": "Lean theorems C17_* : the independent calendar is correct from first principles (civil round-trip both ways for all days, weekday, ordinal, %U/%W, ISO week date), eq/cmp of date-times are those of the instant, strftime never panics for any format text, unknown directives are echoed, malformed formats are errors, numeric directives print their calendar field padded as documented, %L/%N print the leading digits of the 9-digit nanosecond, default print/parse round-trip; + differential run of the model (strftime.rs machine, Display/parse syntaxes, date/date_in_tz filters) against the real crates",
+        "exhaustive": True,
+        "assumptions": [
+            "the `time` crate's format-description formatter/parser is external: its accepted syntaxes are modelled (Model/DateFmt.lean) and compared on every run, not verified",
+            "round-trip law is claimed for offsets of whole minutes below 20 h (what the default format and the offset regex can express); second-granular offsets are exercised but only compared with the model",
+            "wall-clock inputs (`now`, `today`) are never generated",
+            "formats with a width above 24 combined with a real directive are not generated (output size is linear in the width)",
+        ],
+        "trusted": ["Rust `format!` padding semantics ({:0>w$}, {:04} on signed integers, {: >w$}) as transcribed in Model/Strftime.lean"],
+    },
+    "C13": {
+        "manifest_text": "Lean 4 theorems (39) for all strings about the model of the string filters (after the fix: commits): append/prepend/case/newline_to_br/default/strip_newlines/join/size/first/last compute their documented function; strip = lstrip\u2218rstrip and removes exactly the White_Space prefix/suffix; join sep (split sep s) = s for every separator; replace/replace_first/remove scan semantics; truncate never exceeds max(limit, |ellipsis|) clusters and is a whole-cluster prefix plus ellipsis, for every grapheme segmentation; slice is the contiguous infix (drop from front or end, then take) of at most the requested length and never panics; the result of a filter chain is the left-to-right composition with error propagation; the independent reference implementations of Spec/C13 agree with the model. Tied to /repo by exhaustive runs over the property's 10-character alphabet (strings <= 4, arguments <= 2, integers -6..8), random strings <= 200 and chains of 1..4 filters through the real parser.",
+        "manifest_note": "Trusted: Lean kernel + allowed axioms, theorem statements, hand-written filter models (validated differentially). Unicode case maps and grapheme segmentation are parameters shipped per case by the harness (std / unicode-segmentation); the context-sensitive final-sigma rule of to_lowercase is not modelled (sigma never generated).",
+        "technique": "Lean 4 proof (algebraic laws by induction on strings) + exhaustive differential correspondence",
+        "design_ref": "DESIGN.md section 7 C13",
+        "rule": "cases = every stdlib string filter (append, prepend, upcase, downcase, capitalize, strip, lstrip, rstrip, strip_newlines, newline_to_br, replace, replace_first, remove, remove_first, split, join, truncate, truncatewords, slice, size, first, last, default) applied through the plugin API to all strings up to length 4 (arguments up to length 2, quick tier: one less) over {a, B, space, newline, tab, ',', '<', e-acute, U+0301, U+1F600}, every integer argument in [-6, 8], every arity 0..3, non-integer arguments for integer parameters, non-string inputs, random strings up to length 200 from a pool of case-special, whitespace, combining, ZWJ/flag/Hangul and 4-byte characters, the laws strip = lstrip after rstrip and split-then-join on pairs of observations, and chains of 1..4 filters rendered by the real parser against step-by-step application; non-trivial = distinct (filter, input, arguments) whose observed result is not an empty output",
+        "explanation": "Lean theorems C13_* about the model of filters/string/*.rs, slice.rs, html.rs, array.rs, mod.rs and FilterChain::evaluate (split/join identity, strip = lstrip after rstrip, truncate bound for every grapheme segmentation, slice = drop/take infix of bounded length without panic, size/first/last in characters, chain = left-to-right composition) + differential run of the model and of an independent reference implementation / law predicates (Spec/C13.lean) against the real crate on the property's own enumeration",
+        "exhaustive": True,
+        "assumptions": [
+            "Unicode data is external: per-character case maps (char::to_uppercase/to_lowercase) and the grapheme segmentation (unicode_segmentation) of the strings of each case are shipped by the harness from the implementation's own dependencies; theorems hold for every such table; the context-sensitive final-sigma rule of str::to_lowercase is not modelled (U+03A3/U+03C3/U+03C2 are never generated)",
+            "a negative truncate/truncatewords limit means 'no limit' (length as usize), as pinned by the repository's unit tests unit_truncate_negative_length / unit_truncatewords_negative_length; the truncate bound is stated for the limit as the code sees it",
+            "truncate counts the input and the ellipsis in characters and cuts in whole grapheme clusters (the only reading under which the repository's unit_truncate_unicode_codepoints_examples still passes once byte lengths are removed); the bound is in grapheme clusters",
+            "string lengths below 2^63 (isize::MAX) in the slice theorems",
+        ],
+        "trusted": ["unicode_segmentation and std case-mapping tables as shipped per case; Rust str::split / str::replace searcher semantics as modelled by StrF.splitK (validated by the differential run)"],
+    },
     "C12": {
         "manifest_text": "Lean 4 theorems (28) about a model of the serde bridge (ValueSerializer/ScalarSerializer, the untagged Scalar/Value deserializers incl. serde's Content buffering, serialize_as_i64 narrowing, JSON transport) and of the derive-generated object view: to_value(&v) is the identity on date-free marker-free values and preserves kind, render, source, to_kstr, the four state answers and equality; from_value and the JSON round trip are the identity on the stated well-formed domain (with counterexample theorems for every excluded point, replayed on the real code); an integer outside i64 is an error or a float, never another integer (all widths); the derived view of a struct equals its serde conversion and renders identically in templates. The agreement of the many Rust views (Value, ValueCow Owned/Borrowed, &T, Option, Vec, maps, derived structs, to_value, to_object, from_value, serde_json) with the single Lean definition of each observation is established by the differential run (up to 26 views per datum), not by a theorem.",
         "manifest_note": "Trusted: Lean kernel + allowed axioms, theorem statements, hand-written serde model (validated differentially against a recording Serializer). The time crate's text parsers are an oracle tabulated per string by the harness; f64 decimal text and serde_json are modelled at the level of serde's event tree. Partial: view agreement is differential only.",
